@@ -102,6 +102,8 @@ def gen_pk(rng, w, u, allusers):
             sg['by'] = rng.choice(['K1', 'K2', 'K3', 'K4', 'K5'])
         elif y < 0.36:
             sg['flip'] = True
+        elif y < 0.42:
+            sg['empty'] = rng.choice(['string', 'blob'])
         spec['sig'] = sg
     if rng.random() < 0.04:
         spec['trunc'] = rng.randint(1, 6)
@@ -155,6 +157,15 @@ def gen_plan(rng, w):
             if rng.random() < 0.02:
                 req['service'] = 'ssh-userauth'
             plan.append(('req', req))
+            if req['method'] == 'keyboard-interactive' and rng.random() < 0.6:
+                # the conversation continues: responses the application knows for this user, or others
+                known = [r for a, r, _ in w['kbd_resp'] if a == u] + ([[p for a, p, _ in w['pw'] if a == u][0]]
+                                                                      if [p for a, p, _ in w['pw'] if a == u] else [])
+                known = [k if isinstance(k, list) else [k] for k in known]
+                rs = rng.choice(known) if known and rng.random() < 0.7 else rng.choice([['zz'], [], ['r1', 'r2']])
+                plan.append(('msg', dict(kind='info_response', responses=rs)))
+                if rs == ['again', 'x'] and rng.random() < 0.7:
+                    plan.append(('msg', dict(kind='info_response', responses=['fin'])))
         elif y < 0.84:
             rs = rng.choice([['r1', 'r2'], ['again', 'x'], ['fin'], ['rr'], ['pw-b'], ['pw-a'], [], ['zz'], ['!badutf8']])
             m = dict(kind='info_response', responses=rs)
@@ -252,7 +263,8 @@ def scenario_list():
     w['ak'] = {'alice': [dict(key='K1')], 'bob': [dict(key='K1')]}
     for tag, sg in (('sig_wrong_sid', dict(sid='wrong')), ('sig_wrong_user', dict(user='bob')),
                     ('sig_wrong_service', dict(service='ssh-userauth')), ('sig_wrong_key', dict(by='K2')),
-                    ('sig_flipped', dict(flip=True))):
+                    ('sig_flipped', dict(flip=True)), ('sig_empty_string', dict(empty='string')),
+                    ('sig_empty_blob', dict(empty='blob'))):
         S.append((tag, w, [('req', dict(user='alice', method='publickey', key='K1', signed=True, sig=sg)), ('settle',),
                            ('complete', 0), ('settle',)]))
     # query for alice then signed request naming bob with the same key (bob does not have it)
@@ -268,6 +280,74 @@ def scenario_list():
         ('req', dict(user='root', method='publickey', key='cert:C2', signed=True)), ('settle',), ('complete', 0), ('settle',)]))
     # channel open before authentication
     S.append(('gate', E.default_world(), [('msg', dict(kind='chan_open')), ('settle',)]))
+    # password change: PASSWD_CHANGEREQ, then the change request is accepted
+    w = E.default_world()
+    w['pw'] = [['root', 'pw-r', 'C']]
+    w['chpw'] = [['root', 'pw-r', 'new-r', 'T']]
+    S.append(('password_change', w, [('req', dict(user='root', method='password', pw='pw-r')), ('settle',),
+                                      ('complete', 0), ('settle',),
+                                      ('req', dict(user='root', method='password', pw='pw-r', new='new-r')), ('settle',)]))
+    # keyboard-interactive falling back to the password validator
+    w = E.default_world()
+    w['kbd_cfg'] = 'ni'
+    w['pw'] = [['bob', 'pw-b', 'T']]
+    w['async']['pw'] = True
+    S.append(('kbdint_password_fallback', w, [
+        ('req', dict(user='bob', method='keyboard-interactive')), ('settle',), ('complete', 0), ('settle',),
+        ('msg', dict(kind='info_response', responses=['nope'])), ('settle',), ('complete', 1), ('settle',),
+        ('req', dict(user='bob', method='keyboard-interactive')), ('settle',),
+        ('msg', dict(kind='info_response', responses=['pw-b'])), ('settle',), ('complete', 2), ('settle',)]))
+    # multi-round keyboard-interactive with an asynchronous application
+    w = E.default_world()
+    w['kbd_cfg'] = 'yes'
+    w['kbd_chal'] = {'alice': 2}
+    w['kbd_resp'] = [['alice', ['again', 'x'], 1], ['alice', ['fin'], 'T']]
+    w['async']['kbd'] = True
+    S.append(('kbdint_two_rounds', w, [
+        ('req', dict(user='alice', method='keyboard-interactive')), ('settle',), ('complete', 0), ('settle',),
+        ('complete', 1), ('settle',),
+        ('msg', dict(kind='info_response', responses=['again', 'x'])), ('settle',), ('complete', 2), ('settle',),
+        ('msg', dict(kind='info_response', responses=['fin'])), ('settle',), ('complete', 3), ('settle',)]))
+    # keys and CAs accepted by the application callbacks (no authorized_keys)
+    w = E.default_world()
+    w['pk_cb_supported'] = True
+    w['cb_key'] = [['alice', 'K3']]
+    w['cb_ca'] = [['alice', 'CA2']]
+    w['async']['key'] = True
+    S.append(('callback_key', w, [('req', dict(user='alice', method='publickey', key='K3', signed=True)), ('settle',),
+                                   ('complete', 0), ('settle',), ('complete', 1), ('settle',)]))
+    S.append(('callback_ca', w, [('req', dict(user='alice', method='publickey', key='cert:C4', signed=True)), ('settle',),
+                                  ('complete', 0), ('settle',)]))
+    S.append(('callback_key_other_user', w, [('req', dict(user='bob', method='publickey', key='K3', signed=True)), ('settle',),
+                                              ('complete', 0), ('settle',), ('complete', 1), ('settle',)]))
+    # after success: a further request is ignored, connection-layer traffic is served, then a request is fatal
+    w = E.default_world()
+    w['pw'] = [['alice', 'pw-a', 'T'], ['bob', 'pw-b', 'T']]
+    S.append(('after_success', w, [
+        ('req', dict(user='alice', method='password', pw='pw-a')), ('settle',), ('complete', 0), ('settle',),
+        ('req', dict(user='bob', method='password', pw='pw-b')), ('settle',),
+        ('msg', dict(kind='global')), ('msg', dict(kind='chan_open')), ('settle',),
+        ('req', dict(user='bob', method='password', pw='pw-b')), ('settle',)]))
+    # method-specific junk while a publickey query is the current attempt; a user name that saslprep rewrites
+    w = E.default_world()
+    w['ak'] = {'root': [dict(key='K2', no_fwd=True)]}
+    S.append(('junk_and_saslprep', w, [
+        ('req', dict(user='!wide', method='publickey', key='K2', signed=False)), ('settle',), ('complete', 0), ('settle',),
+        ('msg', dict(kind='junk60')), ('msg', dict(kind='ignore')), ('settle',),
+        ('req', dict(user='root', method='publickey', key='K2', signed=True)), ('settle',)]))
+    # pipelined requests for three users, asynchronous everything, completions in reverse order
+    w = E.default_world()
+    w['pw'] = [['alice', 'pw-a', 'T'], ['bob', 'pw-b', 'T']]
+    for k in w['async']:
+        w['async'][k] = True
+    S.append(('pipelined_reverse_completion', w, [
+        ('req', dict(user='alice', method='password', pw='pw-a')),
+        ('req', dict(user='bob', method='password', pw='pw-b')),
+        ('req', dict(user='carol', method='password', pw='pw-a')), ('settle',),
+        ('complete', 2), ('settle',), ('complete', 1), ('settle',), ('complete', 0), ('settle',),
+        ('complete', 3), ('req', dict(user='bob', method='none')), ('settle',), ('complete', 4), ('settle',),
+        ('complete', 5), ('settle',), ('complete', 6), ('settle',), ('complete', 7), ('settle',),
+        ('complete', 8), ('settle',), ('complete', 9), ('settle',), ('complete', 10), ('settle',), ('complete', 11), ('settle',)]))
     return S
 
 
@@ -400,7 +480,7 @@ def stage_server(ctx):
     rng = ctx.rng
     variant = detect_variant(ctx)
     cases = []
-    found = {}
+    verdicts = []            # (case index, name, world, ops, class, text)
 
     def handle(name, world, res):
         stats_of(ctx, world, res)
@@ -409,9 +489,7 @@ def stage_server(ctx):
                       nontrivial=len([o for o in res.ops if o[0] in ('req', 'msg')]) >= 2)
         for cls, text in judge(world, res):
             ctx.count('oracle.violation.' + cls, group='oracle')
-            if found.get(cls, 0) < 2:
-                found[cls] = found.get(cls, 0) + 1
-                ctx.failing_input(text, replay_dict(name, world, res.ops, cls, text))
+            verdicts.append((len(cases) - 1, name, world, res.ops, cls, text))
 
     for name, world, ops in scenario_list():
         res = run_and_record(ctx, 'scenario:' + name, world, ops=ops, cases=cases, variant=variant)
@@ -435,10 +513,28 @@ def stage_server(ctx):
                   '%d of %d histories differ; first: %s world=%s ops=%s  model: %s'
                   % (len(bad), len(cases), first[0], json.dumps(first[2], sort_keys=True), json.dumps(first[3]),
                      view[-1500:]))
-        # search: the oracle already ran on every case; nothing more to do here
-    # vacuity guards
+    # report what the oracle found.  A failing history on which the implementation behaves exactly as the
+    # model of the code (Model/Auth.v, variant fixed=false) is EXPLAINED by the modelled mechanisms (the
+    # stale-continuation defects refuted in Props/C05.v); one on which it deviates from the model is new
+    # and is reported first.
+    badset = set(bad or [])
+    unexplained = [v for v in verdicts if bad is None or v[0] in badset]
+    explained = [v for v in verdicts if not (bad is None or v[0] in badset)]
+    shown = {}
+    for idx, name, world, ops, cls, text in unexplained + explained:
+        expl = not (bad is None or idx in badset)
+        key = (cls, expl)
+        if shown.get(key, 0) >= 2:
+            continue
+        shown[key] = shown.get(key, 0) + 1
+        rd = replay_dict(name, world, ops, cls, text)
+        rd['explained_by_model'] = expl
+        rd['model_variant_fixed'] = variant
+        ctx.failing_input(text + ('' if expl else '  [the implementation also deviates from the model on this history]'), rd)
+    # vacuity guards (every class below is reached by one of the fixed scenarios)
     need = ['history.user_switch', 'history.pipelined_pair', 'history.completions_out_of_order',
-            'history.packet_between_completion_and_wakeup', 'outcome.authenticated', 'outcome.not_authenticated',
+            'history.packet_between_completion_and_wakeup', 'history.request_after_success',
+            'outcome.authenticated', 'outcome.not_authenticated',
             'outcome.disconnected', 'probe.run', 'probe.forced_command', 'probe.pty_denied', 'probe.forwarding_denied',
             'reply.S', 'reply.F', 'reply.K', 'reply.I', 'reply.C', 'reply.U', 'reply.V',
             'request.password', 'request.publickey', 'request.keyboard-interactive', 'request.none',
@@ -515,8 +611,8 @@ async def client_half(ctx):
     path = os.path.join(d, 'agent.sock')
     server = await asyncio.start_unix_server(lambda r, wr: agent_session(r, wr, ['K1']), path)
     try:
-        await attempt('agent', w, 'alice', username='alice', client_keys=None, agent_path=path)
-        await attempt('agent_other_user', w, None, username='bob', client_keys=None, agent_path=path)
+        await attempt('agent', w, 'alice', username='alice', client_keys=(), agent_path=path)
+        await attempt('agent_other_user', w, None, username='bob', client_keys=(), agent_path=path)
     finally:
         server.close()
         await server.wait_closed()
@@ -569,7 +665,7 @@ def run(ctx):
         'open and global request before and after success) sent by the independent MiniSSH peer to a real asyncssh '
         'server whose begin_auth / validators answer from a generated table, synchronously or through futures that the '
         'harness completes in a generated order, interleaved with packet delivery; a history is non-trivial when it has '
-        'at least two packets; distinct = distinct (world, executed operation list, outcome). 20 fixed scenarios run first. '
+        'at least two packets; distinct = distinct (world, executed operation list, outcome). 30 fixed scenarios run first. '
         'client side: a real asyncssh client with password / key / certificate / agent-held key against a real server.')
     ctx.cov['trusted_base'] += [
         'Model/Auth.v models _process_userauth_request, _finish_userauth, lookup_server_auth, the password / publickey / '
